@@ -357,7 +357,7 @@ CFG = {
     "prop_file": "Properties/C05.v",
     "run_modules": ["Verif.C05.Run"],
     "coq_dirs": ["C05"],
-    "n": {"quick": 4500, "thorough": 300000},
+    "n": {"quick": 4500, "thorough": 110000},
     "shard": 250,
     "max_report": 8,
     "shrink": False,          # cases are single operator applications: already minimal
@@ -427,7 +427,7 @@ CFG = {
                  "that code as it is now; a change to one of these functions breaks a proof obligation and the driver then searches a failing "
                  "input (Coq-side differential on ~3700 boundary inputs, confirmed on the real code through the harness). 47 "
                  "theorems, no axioms. Open findings are exhibited by ..._refuted witnesses. The rest of the model is tied to /repo on every run "
-                 "by 5000 (quick) / 300000 (thorough) generated operator/conversion/route/pair/string/pow/parseInt/parseFloat cases "
+                 "by 4500 (quick) / 110000 (thorough) generated operator/conversion/route/pair/string/pow/parseInt/parseFloat cases "
                  "whose result bit pattern AND representation tag are compared with the spec layer evaluated by vm_compute."),
         "note": ("trusted: Coq kernel + vm_compute; stdlib SpecFloat as IEEE semantics (validity of its rounded results is an explicit "
                  "premise of the wf-closure theorem, not proved); the hand transcription coq/C05/Model.v for everything except the leaf layer; "
